@@ -800,7 +800,7 @@ inline:
 	// caller branches on the flag
 	okFlag := -1
 	if n := res.Len(); n >= 2 && idx != n-1 {
-		if b, isB := res.At(n-1).Type().Underlying().(*types.Basic); isB && b.Kind() == types.Bool && flagIsTested(x, n-1) {
+		if b, isB := res.At(n - 1).Type().Underlying().(*types.Basic); isB && b.Kind() == types.Bool && flagIsTested(x, n-1) {
 			okFlag = n - 1
 		}
 	}
@@ -995,13 +995,15 @@ func reachingStores(whole, field []*ssa.Store, at ssa.Instruction) ([]*ssa.Store
 // canon rewrites the top node of a term whose children are already canonical
 // into one spelling per meaning, for the SDK/stdlib equivalences a maintainer
 // uses interchangeably:
-//   ctx.BlockHeader().Time / .Height      → ctx.BlockTime() / ctx.BlockHeight()
-//   a.Sub(b).IsNegative()                 → a.LT(b)              (Int, Uint, LegacyDec)
-//   a.GT(zero) / zero.LT(a)               → a.IsPositive()
-//   a.LT(zero) / zero.GT(a)               → a.IsNegative()
-//   a.Equal(zero)                         → a.IsZero()
-//   NewInt(0|1), LegacyNewDec(0|1)        → ZeroInt()/OneInt()/LegacyZeroDec()/LegacyOneDec()
-//   a.Mul(NewInt(c)) / a.MulRaw(c)        → a.MulRaw(c)   (likewise Add/Sub/Quo Raw)
+//
+//	ctx.BlockHeader().Time / .Height      → ctx.BlockTime() / ctx.BlockHeight()
+//	a.Sub(b).IsNegative()                 → a.LT(b)              (Int, Uint, LegacyDec)
+//	a.GT(zero) / zero.LT(a)               → a.IsPositive()
+//	a.LT(zero) / zero.GT(a)               → a.IsNegative()
+//	a.Equal(zero)                         → a.IsZero()
+//	NewInt(0|1), LegacyNewDec(0|1)        → ZeroInt()/OneInt()/LegacyZeroDec()/LegacyOneDec()
+//	a.Mul(NewInt(c)) / a.MulRaw(c)        → a.MulRaw(c)   (likewise Add/Sub/Quo Raw)
+//
 // (len(s) ⋈ 0 for a string s is rewritten where the type is known, in compute.)
 var numTypes = map[string]bool{"math.Int": true, "math.Uint": true, "math.LegacyDec": true}
 
